@@ -40,6 +40,9 @@ def effect_free(e):
         return True
     if isinstance(e, ast.Tuple):
         return all(effect_free(x) for x in e.elts)
+    if isinstance(e, ast.Slice):
+        # building a slice object out of constants and variable reads
+        return all(x is None or effect_free(x) for x in (e.lower, e.upper, e.step))
     return False
 
 
